@@ -82,7 +82,8 @@ class C10(Prop):
             return [{"module": "MC_Deps", "cfg": "Deps_quick.cfg"}]
         return [{"module": "MC_Deps", "cfg": "Deps_thorough.cfg", "export": False},
                 {"module": "MC_Deps", "cfg": "Deps_thorough5.cfg", "export": False},
-                {"module": "MC_Deps", "cfg": "Deps_thorough_gen.cfg"}]
+                {"module": "MC_Deps", "cfg": "Deps_thorough_gen.cfg"},
+                {"module": "MC_Deps", "cfg": "Deps_sim.cfg", "simulate": "num=200", "depth": 12, "export": False, "timeout": 900}]
 
     def nontrivial(self, rec):
         if rec["k"] == "resolve":
